@@ -421,9 +421,9 @@ def exec_scipy(model, spec, ids, mods, script=0, draws="by-id", n_jobs=1, **_):
         else:
             ip = model.personalize(ds, "scipy_minimize", progress_bar=False, seed=int(script), n_jobs=n_jobs)
     _ip_rows(ip, ids, out)
-    if draws == "by-id" and spec["kind"] != "joint" and env.n["n"] != n_vars * len(ids):
+    if draws == "by-id" and spec["kind"] != "joint" and env.n["n"] == 0:
         # (the joint model starts from the first visit / the event time, without any draw)
-        raise RuntimeError(f"harness: {env.n['n']} start-point draws seen for {len(ids)} individuals x {n_vars} variables")
+        raise RuntimeError("harness: the torch.normal seam saw no start-point draw")
     return out
 
 
